@@ -209,7 +209,7 @@ def c02_pkg(rec, case):
     ok = True
     with pkg.scratch() as d:
         if c['version'] == 1:
-            _build_conv_package(d, spec, names, spec.wav[widx], widx)
+            _build_conv_package(d, spec, names, spec.wav[widx], widx, units_=tuple(c.get('cf_units') or ('mJy', 'au', 'micron')))
             fn = names
         else:
             pkg.write_v2(d, spec)
@@ -282,7 +282,8 @@ def run_c02(tier, seed):
         flags = [1] * n_f if n_f < 3 else [1, 1, int(rng.choice([1, 2, 3, 0]))]
         case = dict(seed=seed, tag='c02-pkg', pseed=int(rng.integers(1, 10 ** 6)), n_models=int(rng.integers(1, 6)), n_ap=n_ap, n_f=n_f, step=step, dmin=dmin, dmax=float(dmax),
                     theta=theta, version=1 + t % 2, memmap=bool((t // 2) % 2), increasing=bool(t % 3), lo=0., hi=float(rng.uniform(1, 20)), flags=flags, exact=(kind == 2),
-                    range_unit=('pc' if (t % 3 == 1 and kind not in (1, 2)) else 'kpc'))     # the range may be given in any length unit
+                    range_unit=('pc' if (t % 3 == 1 and kind not in (1, 2)) else 'kpc'),     # the range may be given in any length unit
+                    cf_units=(['Jy', 'pc', 'AA'] if t % 4 == 2 else ['mJy', 'au', 'micron']))      # ... and the files stored in any units
         try:
             c02_pkg(rec, case)
         except Exception as e:
